@@ -77,6 +77,12 @@ func TestC16(t *testing.T) {
 			}
 		}
 	}
+	// a TLSProvider that fails: without the right cookie the binary still refuses (status 1, nothing printed)
+	for _, ck := range []string{"\x00", "", cookieVal[:4], cookieVal + " ", strings.ToUpper(cookieVal), "other"} {
+		for _, proto := range []string{"netrpc", "grpc"} {
+			cases = append(cases, c16case{ck, cookieKey, cookieVal, proto, "provider-fail", false, "\x00", "", false})
+		}
+	}
 	// a plugin whose start-up work takes longer than any internal timer of go-plugin: the line still comes with
 	// a listener that accepts
 	for _, tl := range []string{"none", "clientcert"} {
@@ -104,6 +110,9 @@ func TestC16(t *testing.T) {
 			}
 			if c.tls == "provider" {
 				pc.TLS, pc.CertPEM, pc.KeyPEM = "provider", certPEM, keyPEM
+			}
+			if c.tls == "provider-fail" {
+				pc.TLS = "provider-fail"
 			}
 			if c.slowInit {
 				pc.InitDelayMs = 5500
